@@ -4,12 +4,19 @@
   Proved here: the re-derived ftyp/moov headers always carry an explicit size (never until-EOF) that declares
   exactly header + payload; the padding box declares exactly the pad size with the 32-bit form; the assembled
   metadata is body ++ pad header ++ zeros and has length metadata_len + pad.
+  `C02_structure` (for every input): whenever the model returns metadata, the INDEPENDENT walker and structure check
+  of Spec/Mp4Rules.lean (`Spec_C02_structure`, the very function the check evaluates on the real output) finds
+  exactly [ftyp, moov] or [ftyp, moov, free], every box with an explicit size, the sizes tiling the metadata, the
+  padding zero.  (Lemmas/MetaWalk.lean: the encoded header is what the walker reads back; the kept ftyp / moov
+  serialise to `encoded_len` bytes - an invariant of the scan; displacement keeps lengths.)
   The fixpoint half (re-sanitizing md ++ media gives "nothing to do" with span {|md|, len}) is established per
   generated case on the real code (the harness really concatenates and re-runs) and compared with the model;
-  its proof (`tokenize_append`) is future work — stated in DESIGN.md.
+  its proof is future work — stated in DESIGN.md.
 -/
 import MediaSan.Lemmas.Mp4Header
 import MediaSan.Mp4.Sanitize
+import MediaSan.Lemmas.MetaWalk
+import MediaSan.Spec.Mp4Rules
 namespace MediaSan.Props.C02
 open MediaSan MediaSan.Mp4
 
@@ -69,5 +76,231 @@ theorem C02_assemble (ftyp : Box Ftyp) (moov : Box L5) (ml pad : Nat)
 example : withDataSize MOOV 100 = .ok ⟨MOOV, .size 108⟩ := by decide
 example : withDataSize MOOV 4294967288 = .ok ⟨MOOV, .ext 4294967304⟩ := by decide
 example : withU32DataSize FREE (13 - padHeaderSize) = ⟨FREE, .size 13⟩ := by decide
+
+
+/-! ### the structure of the returned metadata, as the independent walker reads it -/
+section Structure
+open MediaSan.Spec.Mp4Walk MediaSan.Spec.Mp4Rules
+
+/-- the boxes the assembled metadata consists of -/
+def mdBoxes (fh mh : BoxHeader) (fp mp : Bytes) (pad : Nat) : List (BoxHeader × Bytes) :=
+  [(fh, fp), (mh, mp)] ++ (if pad = 0 then [] else [(⟨FREE, .size pad⟩, List.replicate (pad - 8) 0)])
+
+theorem box_ser_eq {C} (K : Ser C) (h : BoxHeader) (d : Data C) (hd : h.dataSize = .ok (some (d.len K))) :
+    Box.ser K ⟨h, d⟩ = encodeHeader h ++ d.ser K ∧ Box.len K ⟨h, d⟩ = h.encodedLen + d.len K := by
+  have := calcHeader_same K ⟨h, d⟩ (d.len K) hd rfl
+  simp only [Box.ser, Box.len, this]
+  exact ⟨trivial, trivial⟩
+
+theorem assemble_boxes (fh mh : BoxHeader) (fd : Data Ftyp) (md : Data L5) (ml pad : Nat)
+    (hf : withDataSize FTYP (fd.len ftypSer) = .ok fh) (hm : withDataSize MOOV (md.len ser5) = .ok mh)
+    (hfs : (fd.ser ftypSer).length = fd.len ftypSer) (hms : (md.ser ser5).length = md.len ser5)
+    (hml : ml = Box.len ftypSer ⟨fh, fd⟩ + Box.len ser5 ⟨mh, md⟩)
+    (hpad : pad = 0 ∨ (8 ≤ pad ∧ pad ≤ 4294967287)) :
+    assemble ⟨fh, fd⟩ ⟨mh, md⟩ ml pad = serBoxes (mdBoxes fh mh (fd.ser ftypSer) (md.ser ser5) pad) ∧
+    (∀ hp ∈ mdBoxes fh mh (fd.ser ftypSer) (md.ser ser5) pad, hp.1.WF ∧ hp.1.dataSize = .ok (some hp.2.length)) ∧
+    fh.ty = FTYP ∧ mh.ty = MOOV := by
+  obtain ⟨f1, f2, f3, f4⟩ := C02_headers_explicit FTYP FTYP_wf _ fh hf
+  obtain ⟨m1, m2, m3, m4⟩ := C02_headers_explicit MOOV MOOV_wf _ mh hm
+  obtain ⟨fs, fl⟩ := box_ser_eq ftypSer fh fd f2
+  obtain ⟨ms, mlen⟩ := box_ser_eq ser5 mh md m2
+  have hbody : (Box.ser ftypSer ⟨fh, fd⟩ ++ Box.ser ser5 ⟨mh, md⟩).length = ml := by
+    rw [hml, fs, ms, fl, mlen]
+    simp only [List.length_append, encodeHeader_length _ f3, encodeHeader_length _ m3, hfs, hms]
+  obtain ⟨_, hshape⟩ := C02_assemble ⟨fh, fd⟩ ⟨mh, md⟩ ml pad hbody hpad
+  refine ⟨?_, ?_, f4, m4⟩
+  · by_cases hp0 : pad = 0
+    · subst hp0
+      simp [assemble, mdBoxes, serBoxes, fs, ms]
+    · rw [hshape hp0, fs, ms]
+      simp [mdBoxes, hp0, serBoxes, List.append_assoc]
+  · intro hp hmem
+    simp only [mdBoxes, List.mem_append, List.mem_cons, List.not_mem_nil, or_false] at hmem
+    rcases hmem with (h | h) | h
+    · subst h; exact ⟨f3, by rw [hfs]; exact f2⟩
+    · subst h; exact ⟨m3, by rw [hms]; exact m2⟩
+    · split at h
+      · cases h
+      · rename_i hp0
+        simp only [List.mem_cons, List.not_mem_nil, or_false] at h
+        subst h
+        have hb : 8 ≤ pad ∧ pad ≤ 4294967287 := by rcases hpad with h | h; exact absurd h hp0; exact h
+        refine ⟨⟨FREE_wf, by omega, by unfold Mp4.u32Max; omega⟩, ?_⟩
+        simp only [BoxHeader.dataSize, BoxSize.toNat?, BoxHeader.encodedLen, FREE, List.length_replicate]
+        have : 8 + 0 + 0 ≤ pad := by omega
+        simp only [this, if_true]
+
+
+theorem getD_append_replicate (A : Bytes) (n k i : Nat) (hk : k = A.length) :
+    (A ++ List.replicate n (0 : UInt8)).getD (k + i) 0 = 0 := by
+  subst hk
+  rw [List.getD_eq_getElem?_getD, List.getElem?_append_right (by omega)]
+  simp only [Nat.add_sub_cancel_left, List.getElem?_replicate]
+  split <;> rfl
+
+theorem name4_of_ty (h : BoxHeader) (b : Bytes) (ht : h.ty = .fourcc b) : name4 h = b := by
+  unfold name4; rw [ht]
+
+/-- the independent structure check accepts every such box sequence -/
+theorem structure_of_boxes (fh mh : BoxHeader) (fp mp : Bytes) (pad : Nat)
+    (hall : ∀ hp ∈ mdBoxes fh mh fp mp pad, hp.1.WF ∧ hp.1.dataSize = .ok (some hp.2.length))
+    (hf : fh.ty = FTYP) (hm : mh.ty = MOOV) (off len : Nat) :
+    Spec_C02_structure (.rewritten (Stream.ofBytes (serBoxes (mdBoxes fh mh fp mp pad))) off len) = none := by
+  have hw := walk_ser _ hall
+  have hlen : (Stream.ofBytes (serBoxes (mdBoxes fh mh fp mp pad))).len = (serBoxes (mdBoxes fh mh fp mp pad)).length := rfl
+  have nf : name4 fh = cc 'f' 't' 'y' 'p' := by rw [name4_of_ty fh _ hf]; decide
+  have nm : name4 mh = cc 'm' 'o' 'o' 'v' := by rw [name4_of_ty mh _ hm]; decide
+  unfold Spec_C02_structure mdTop
+  simp only [hlen, hw]
+  by_cases hp0 : pad = 0
+  · simp [mdBoxes, hp0, descr, nf, nm]
+  · have nfr : name4 ⟨FREE, .size pad⟩ = cc 'f' 'r' 'e' 'e' := by rw [name4_of_ty _ _ rfl]; decide
+    have hfw := (hall (fh, fp) (by simp [mdBoxes])).1
+    have hmw := (hall (mh, mp) (by simp [mdBoxes])).1
+    simp only [mdBoxes, hp0, if_false, List.cons_append, List.nil_append, descr, List.all_cons, List.all_nil,
+      Bool.and_self, Bool.not_true, List.map_cons, List.map_nil, nf, nm, nfr, and_self, if_true,
+      List.getLast?_cons_cons, List.getLast?_singleton]
+    have hall0 : (List.range (min (TopBox.payloadLen ⟨0 + fh.encodedLen + fp.length + mh.encodedLen + mp.length,
+          (BoxHeader.mk FREE (.size pad)).encodedLen, cc 'f' 'r' 'e' 'e',
+          0 + fh.encodedLen + fp.length + mh.encodedLen + mp.length + (BoxHeader.mk FREE (.size pad)).encodedLen +
+            (List.replicate (pad - 8) (0 : UInt8)).length, true⟩) 4096)).all
+        (fun i => (Stream.ofBytes (serBoxes [(fh, fp), (mh, mp), (⟨FREE, .size pad⟩, List.replicate (pad - 8) 0)])).get
+          (TopBox.payloadOff ⟨0 + fh.encodedLen + fp.length + mh.encodedLen + mp.length,
+            (BoxHeader.mk FREE (.size pad)).encodedLen, cc 'f' 'r' 'e' 'e',
+            0 + fh.encodedLen + fp.length + mh.encodedLen + mp.length + (BoxHeader.mk FREE (.size pad)).encodedLen +
+              (List.replicate (pad - 8) (0 : UInt8)).length, true⟩ + i) = 0) = true := by
+      rw [List.all_eq_true]
+      intro i _
+      simp only [TopBox.payloadOff, Stream.ofBytes]
+      have e : serBoxes [(fh, fp), (mh, mp), (⟨FREE, .size pad⟩, List.replicate (pad - 8) 0)] =
+          (encodeHeader fh ++ fp ++ encodeHeader mh ++ mp ++ encodeHeader ⟨FREE, .size pad⟩) ++ List.replicate (pad - 8) 0 := by
+        simp [serBoxes, List.append_assoc]
+      rw [e]
+      apply decide_eq_true
+      apply getD_append_replicate
+      have hfr : (BoxHeader.mk FREE (.size pad)).WF := (hall (⟨FREE, .size pad⟩, List.replicate (pad - 8) 0) (by simp [mdBoxes, hp0])).1
+      simp only [List.length_append, encodeHeader_length _ hfw, encodeHeader_length _ hmw, encodeHeader_length _ hfr]
+      omega
+    simp only [hall0, if_true]
+    simp
+
+
+theorem planRewrite_pad (ml off pad : Nat) (d : Option Int) (h : planRewrite ml off = .ok (pad, d)) :
+    pad = 0 ∨ (8 ≤ pad ∧ pad ≤ 4294967287) := by
+  unfold planRewrite at h
+  have e1 : padHeaderSize = 8 := rfl
+  have e2 : maxPadSize = 4294967287 := by decide
+  split at h
+  · dsimp only at h
+    split at h
+    · simp only [Except.ok.injEq, Prod.mk.injEq] at h; exact Or.inl h.1.symm
+    · split at h
+      · rename_i hc
+        simp only [Except.ok.injEq, Prod.mk.injEq] at h
+        rw [e1, e2] at hc
+        right; rw [← h.1]; exact ⟨hc.1, hc.2.1⟩
+      · split at h
+        · simp only [Except.ok.injEq, Prod.mk.injEq] at h; exact Or.inl h.1.symm
+        · cases h
+  · dsimp only at h
+    split at h
+    · simp only [Except.ok.injEq, Prod.mk.injEq] at h; exact Or.inl h.1.symm
+    · cases h
+
+/-- what `finish` returns as metadata is such a box sequence -/
+theorem finish_boxes (st : ScanState) (r : Sanitized) (md : Bytes) (hs : SerOk st) (h : finish st = .ok r)
+    (hmd : r.metadata = some md) :
+    ∃ fh mh fp mp pad, md = serBoxes (mdBoxes fh mh fp mp pad) ∧
+      (∀ hp ∈ mdBoxes fh mh fp mp pad, hp.1.WF ∧ hp.1.dataSize = .ok (some hp.2.length)) ∧
+      fh.ty = FTYP ∧ mh.ty = MOOV := by
+  unfold finish at h
+  cases hf : st.ftyp with
+  | none => rw [hf] at h; cases h
+  | some ftyp =>
+    rw [hf] at h; dsimp only at h
+    cases hm : st.moov with
+    | none => rw [hm] at h; cases h
+    | some moov =>
+      rw [hm] at h
+      cases hmo : st.moovOffset with
+      | none => rw [hmo] at h; cases h
+      | some mo =>
+        rw [hmo] at h; dsimp only at h
+        cases hd : st.data with
+        | none => rw [hd] at h; cases h
+        | some data =>
+          rw [hd] at h; dsimp only at h
+          have hfs := hs.1 ftyp hf
+          have hms := hs.2 moov hm
+          split at h
+          · simp only [PureRes.ok.injEq] at h; rw [← h] at hmd; cases hmd
+          · cases hwf : withDataSize FTYP (ftyp.data.len ftypSer) with
+            | error e => rw [hwf] at h; cases h
+            | ok fh =>
+              cases hwm : withDataSize MOOV (moov.data.len ser5) with
+              | error e => rw [hwf, hwm] at h; cases h
+              | ok mh =>
+                rw [hwf, hwm] at h
+                dsimp only at h
+                split at h
+                · cases h
+                · cases hpl : planRewrite (Box.len ftypSer ⟨fh, ftyp.data⟩ + Box.len ser5 ⟨mh, moov.data⟩) data.offset with
+                  | error e => rw [hpl] at h; cases h
+                  | ok pd =>
+                    obtain ⟨pad, disp⟩ := pd
+                    rw [hpl] at h
+                    have hpad := planRewrite_pad _ _ _ _ hpl
+                    cases disp with
+                    | none =>
+                      dsimp only at h
+                      simp only [PureRes.ok.injEq] at h
+                      rw [← h] at hmd
+                      simp only [Option.some.injEq] at hmd
+                      obtain ⟨h1, h2, h3, h4⟩ := assemble_boxes fh mh ftyp.data moov.data _ pad hwf hwm hfs hms rfl hpad
+                      exact ⟨fh, mh, _, _, pad, by rw [← hmd, h1], h2, h3, h4⟩
+                    | some dv =>
+                      dsimp only at h
+                      cases hdm : displaceMoov dv moov.data with
+                      | err e => rw [hdm] at h; cases h
+                      | panic m => rw [hdm] at h; cases h
+                      | ok d =>
+                        rw [hdm] at h
+                        simp only [PureRes.ok.injEq] at h
+                        rw [← h] at hmd
+                        simp only [Option.some.injEq] at hmd
+                        obtain ⟨hl1, hl2⟩ := displaceMoov_len dv moov.data d hdm
+                        have hwm' : withDataSize MOOV (d.len ser5) = .ok mh := by rw [hl2]; exact hwm
+                        have hms' : (d.ser ser5).length = d.len ser5 := by rw [hl1, hl2]; exact hms
+                        have hml : Box.len ftypSer ⟨fh, ftyp.data⟩ + Box.len ser5 ⟨mh, moov.data⟩ =
+                            Box.len ftypSer ⟨fh, ftyp.data⟩ + Box.len ser5 ⟨mh, d⟩ := by
+                          simp only [Box.len, Box.calcHeader, hl2]
+                        obtain ⟨h1, h2, h3, h4⟩ := assemble_boxes fh mh ftyp.data d _ pad hwf hwm' hfs hms' hml hpad
+                        exact ⟨fh, mh, _, _, pad, by rw [← hmd, h1], h2, h3, h4⟩
+
+/-- C02, structure part, for every input: whenever the model returns metadata, the independent walker finds in it
+    exactly `ftyp, moov` or `ftyp, moov, free`, all with explicit sizes that tile the metadata, and a zero padding -/
+theorem C02_structure (s : Stream) (kind : SkipKind) (cfg : Config) (r : Sanitized) (md : Bytes)
+    (h : Mp4.sanitize s kind cfg = .ok r) (hmd : r.metadata = some md) :
+    Spec_C02_structure (.rewritten (Stream.ofBytes md) r.data.offset r.data.len) = none := by
+  obtain ⟨st, hs, hfin⟩ := sanitize_ser s kind cfg r h
+  obtain ⟨fh, mh, fp, mp, pad, e, hall, hf, hm⟩ := finish_boxes st r md hs hfin hmd
+  rw [e]
+  exact structure_of_boxes fh mh fp mp pad hall hf hm _ _
+
+
+-- Non-vacuity: media before the movie box, so metadata is returned (and C02_structure says something)
+def tinyRemux : Bytes :=
+  [0,0,0,20, 0x66,0x74,0x79,0x70, 0x69,0x73,0x6f,0x6d, 0,0,0,0, 0x69,0x73,0x6f,0x6d,
+   0,0,0,12, 0x6d,0x64,0x61,0x74, 1,2,3,4,
+   0,0,0,56, 0x6d,0x6f,0x6f,0x76,
+   0,0,0,48, 0x74,0x72,0x61,0x6b,
+   0,0,0,40, 0x6d,0x64,0x69,0x61,
+   0,0,0,32, 0x6d,0x69,0x6e,0x66,
+   0,0,0,24, 0x73,0x74,0x62,0x6c,
+   0,0,0,16, 0x73,0x74,0x63,0x6f, 0,0,0,0, 0,0,0,0]
+example : (match Mp4.sanitize (Stream.ofBytes tinyRemux) .seekable {} with
+    | .ok r => r.metadata.isSome && decide (r.data = ⟨20, 12⟩) | _ => false) = true := by decide +kernel
+
+end Structure
 
 end MediaSan.Props.C02
